@@ -1120,6 +1120,13 @@ func (c *ControlPlane) InheritDialerHealthFrom(previous *ControlPlane) bool {
 		previousGroups[group.Name] = group
 	}
 
+	// Restore every group first and establish the selection floors afterwards: a node shared by several
+	// groups is restored once per group, and a later restore must not undo the floor of an earlier group.
+	type pendingFloor struct {
+		group    *outbound.DialerGroup
+		fallback outbound.ReloadSelectionFallback
+	}
+	var pendingFloors []pendingFloor
 	for _, group := range c.outbounds {
 		if group == nil {
 			continue
@@ -1145,7 +1152,10 @@ func (c *ControlPlane) InheritDialerHealthFrom(previous *ControlPlane) bool {
 				hasOverlap = true
 			}
 		}
-		group.EnsureReloadSelectionFloor(fallback)
+		pendingFloors = append(pendingFloors, pendingFloor{group: group, fallback: fallback})
+	}
+	for _, p := range pendingFloors {
+		p.group.EnsureReloadSelectionFloor(p.fallback)
 	}
 	return hasOverlap
 }
